@@ -379,6 +379,17 @@ func c05Judge(r *R, peer *rawPeer, b *stubBackend, defs []*c05cmd, useTLS, insec
 		}
 		res := o.Reply.Name
 		post := st
+		// a state-changing command must not report success when the backend refused it
+		if res == "OK" {
+			switch d.name {
+			case "LOGIN", "AUTHENTICATE", "SELECT", "EXAMINE", "UNAUTHENTICATE":
+				for _, c := range mine {
+					if c.Err && c.Method != "Poll" && c.Method != "Unselect" {
+						r.Violate("success-despite-backend-refusal", d.name+"->"+c.Method, "command %s %s was answered OK although the backend refused it: %s failed (the connection would change state without the backend's consent)", o.Cmd.Tag, d.name, c)
+					}
+				}
+			}
+		}
 		if permitted && res == "OK" {
 			switch d.name {
 			case "LOGIN", "AUTHENTICATE":
